@@ -23,3 +23,8 @@ Theorem at_the_20_suites (Phi : forall E Sc Pk Sk, Suite E Sc Pk Sk -> Prop) :
 Proof.
   intros H. apply all_suites_from_laws. intros E Sc Pk Sk CS HL _ _ _ HG CV. exact (H E Sc Pk Sk CS HL (HG CV)).
 Qed.
+
+Theorem at_the_20_suites_g (Phi : forall E Sc Pk Sk, Suite E Sc Pk Sk -> Prop) :
+  (forall E Sc Pk Sk (CS : Suite E Sc Pk Sk), GroupLaws CS -> Phi E Sc Pk Sk CS) ->
+  all_suites (fun E Sc Pk Sk CS => CurveLaws CS -> Phi E Sc Pk Sk CS).
+Proof. intros H. apply at_the_20_suites. intros E Sc Pk Sk CS _ GL. exact (H E Sc Pk Sk CS GL). Qed.
